@@ -328,4 +328,127 @@ theorem peel_packetAt (C : OnionCrypto) (plen : Bytes → Option Nat) (ad noise 
       rw [List.take_append_drop]
     rw [hnext]
     simp [hlast, hne]
+
+/-! ### failure packets -/
+
+@[simp] theorem wrapFailure_length (C : OnionCrypto) (k : FailKeys) (pkt : Bytes) :
+    (wrapFailure C k pkt).length = pkt.length := by simp [wrapFailure]
+
+theorem wrapFailure_involutive (C : OnionCrypto) (k : FailKeys) (pkt : Bytes) :
+    wrapFailure C k (wrapFailure C k pkt) = pkt := by
+  unfold wrapFailure
+  rw [xorB_length, ks_length, Nat.min_self]
+  exact xorB_cancel _ _ (by simp)
+
+@[simp] theorem relayFailure_length (C : OnionCrypto) (pre : List FailKeys) (pkt : Bytes) :
+    (relayFailure C pre pkt).length = pkt.length := by
+  induction pre with
+  | nil => simp [relayFailure]
+  | cons k t ih => simpa [relayFailure] using ih
+
+theorem rd16_be16 (n : Nat) (rest : Bytes) (h : n < 65536) : rd16 (be16 n ++ rest) = n := by
+  simp [rd16, be16]; omega
+
+theorem be16_length (n : Nat) : (be16 n).length = 2 := rfl
+
+theorem failMacOk_unencrypted (C : OnionCrypto) (k : FailKeys) (minLen code : Nat) (data : Bytes) :
+    failMacOk C k (buildUnencryptedFailure C k minLen code data) = true := by
+  simp [failMacOk, buildUnencryptedFailure, List.drop_left' (norm32_length _), List.take_left' (norm32_length _)]
+
+theorem parseFailure_unencrypted (C : OnionCrypto) (k : FailKeys) (minLen code hop : Nat) (data : Bytes)
+    (hc : code < 65536) (hd : 2 + data.length < 65536) (hp : minLen - (2 + data.length) < 65536) :
+    parseFailure hop (buildUnencryptedFailure C k minLen code data) = .attributed hop code data := by
+  unfold parseFailure buildUnencryptedFailure
+  simp only [List.drop_left' (norm32_length _)]
+  simp only [List.append_assoc]
+  rw [rd16_be16 _ _ hd]
+  simp only [List.drop_left' (be16_length _)]
+  have h1 : (be16 code ++ (data ++ (be16 (minLen - (2 + data.length)) ++ zeros (minLen - (2 + data.length))))).take (2 + data.length)
+      = be16 code ++ data := by
+    rw [← List.append_assoc]; exact List.take_left' (by simp [be16_length])
+  have h2 : (be16 code ++ (data ++ (be16 (minLen - (2 + data.length)) ++ zeros (minLen - (2 + data.length))))).drop (2 + data.length)
+      = be16 (minLen - (2 + data.length)) ++ zeros (minLen - (2 + data.length)) := by
+    rw [← List.append_assoc]; exact List.drop_left' (by simp [be16_length])
+  rw [h1, h2, rd16_be16 _ _ hp, rd16_be16 _ _ hc]
+  simp [be16_length, List.drop_left' (be16_length _)]
+  rw [if_neg (by omega), if_neg (by omega), if_neg (by omega), if_neg (by omega)]
+
+/-- no hop before the failing one accepts, by accident, the packet it relayed as its own:
+    for every relaying hop `k` (nearest the sender first), `k`'s `um` HMAC does NOT verify on the
+    packet that hop received from downstream. (Each is one MAC-forgery event of probability 2⁻²⁵⁶
+    for a real MAC; it cannot be proved for an arbitrary `mac`.) -/
+def NoEarlyMatch (C : OnionCrypto) : List FailKeys → Bytes → Prop
+  | [], _ => True
+  | k :: rest, inner => failMacOk C k (relayFailure C rest inner) = false ∧ NoEarlyMatch C rest inner
+
+theorem decodeGo_relay (C : OnionCrypto) (fk : FailKeys) (post : List FailKeys) (U : Bytes)
+    (hU : failMacOk C fk U = true) :
+    ∀ (pre : List FailKeys) (i : Nat), NoEarlyMatch C pre (wrapFailure C fk U) →
+      decodeGo C i (pre ++ fk :: post) (relayFailure C pre (wrapFailure C fk U)) =
+        parseFailure (i + pre.length) U
+  | [], i, _ => by
+    simp [decodeGo, relayFailure, wrapFailure_involutive, hU]
+  | k :: pre, i, hno => by
+    obtain ⟨h1, h2⟩ := hno
+    have ih := decodeGo_relay C fk post U hU pre (i + 1) h2
+    have hr : relayFailure C (k :: pre) (wrapFailure C fk U) =
+        wrapFailure C k (relayFailure C pre (wrapFailure C fk U)) := rfl
+    simp only [List.cons_append, decodeGo, hr, wrapFailure_involutive, h1]
+    rw [if_neg (by simp), ih]
+    congr 1; simp; omega
+
+/-- the packet the sender holds after removing the layers of hops `0..j` -/
+def unwrapped (C : OnionCrypto) (keys : List FailKeys) (pkt : Bytes) (j : Nat) : Bytes :=
+  (keys.take (j + 1)).foldl (fun p k => wrapFailure C k p) pkt
+
+theorem decodeGo_spec (C : OnionCrypto) :
+    ∀ (keys : List FailKeys) (i : Nat) (pkt : Bytes),
+      (decodeGo C i keys pkt = .unattributable ∧
+        ∀ j (hj : j < keys.length), failMacOk C keys[j] (unwrapped C keys pkt j) = false) ∨
+      (∃ j, ∃ hj : j < keys.length, failMacOk C keys[j] (unwrapped C keys pkt j) = true ∧
+        (∀ j' (hj' : j' < keys.length), j' < j → failMacOk C keys[j'] (unwrapped C keys pkt j') = false) ∧
+        decodeGo C i keys pkt = parseFailure (i + j) (unwrapped C keys pkt j))
+  | [], i, pkt => by left; simp [decodeGo]
+  | k :: rest, i, pkt => by
+    by_cases hm : failMacOk C k (wrapFailure C k pkt) = true
+    · right
+      refine ⟨0, by simp, by simpa [unwrapped] using hm, by intro j' _ h; omega, ?_⟩
+      simp [decodeGo, hm, unwrapped]
+    · have hm' : failMacOk C k (wrapFailure C k pkt) = false := by simpa using hm
+      have hstep : ∀ j, unwrapped C (k :: rest) pkt (j + 1) = unwrapped C rest (wrapFailure C k pkt) j := by
+        intro j; simp [unwrapped]
+      rcases decodeGo_spec C rest (i + 1) (wrapFailure C k pkt) with ⟨h1, h2⟩ | ⟨j, hj, h1, h2, h3⟩
+      · left
+        refine ⟨by simp [decodeGo, hm', h1], ?_⟩
+        intro j hj
+        cases j with
+        | zero => simpa [unwrapped] using hm'
+        | succ j => simpa [hstep] using h2 j (by simpa using hj)
+      · right
+        refine ⟨j + 1, by simpa using hj, by simpa [hstep] using h1, ?_, ?_⟩
+        · intro j' hj' hlt
+          cases j' with
+          | zero => simpa [unwrapped] using hm'
+          | succ j' => simpa [hstep] using h2 j' (by simpa using hj') (by omega)
+        · simp only [decodeGo, hm', hstep]
+          rw [if_neg (by simp), h3]
+          congr 1; omega
+
+theorem parseFailure_ne_unattributable (hop : Nat) (pkt : Bytes) : parseFailure hop pkt ≠ .unattributable := by
+  intro h
+  unfold parseFailure at h
+  simp only [] at h
+  repeat' split at h
+  all_goals cases h
+
+/-! ### a toy instantiation for the non-vacuity examples (NOT a cipher; just computable) -/
+def toy : OnionCrypto :=
+  ⟨fun key => ⟨fun i => UInt8.ofNat (17 * i + 3 * key.length + (key.headD 0).toNat)⟩,
+   fun key m => [UInt8.ofNat (m.foldl (fun a x => (a * 3 + x.toNat) % 251) key.length + 1)]⟩
+
+def toyHops : List Hop :=
+  [⟨[1], [11], [2, 0xaa, 0xbb]⟩, ⟨[2, 2], [12], [4, 1, 2, 3, 4]⟩, ⟨[3], [13, 1], [1, 9]⟩]
+
+def toyFailKeys : List FailKeys := [⟨[1], [2]⟩, ⟨[3, 3], [4]⟩, ⟨[5], [6, 6]⟩]
+
 end Ldk.Onion
